@@ -1100,6 +1100,13 @@ class CodeGenerator(NodeVisitor):
                 "._body_stream:"
             )
             loop_body()
+        elif frame.buffer is not None:
+            # inside a macro, call block, filter block or set block the
+            # output is collected in a buffer instead of being yielded.
+            self.writeline(
+                "for event in template._get_default_module()._body_stream:"
+            )
+            loop_body()
         else:
             self.writeline("yield from template._get_default_module()._body_stream")
 
